@@ -162,6 +162,8 @@ for _n in (2, 3):
 SPACES["alldiff_wide"] = (cplib.space_alldiff_wide, cplib.size_alldiff_wide)
 SPACES["alldiff7_full_domains"] = (cplib.space_alldiff7_full, lambda: 4)
 SPACES["cumulative5_unit"] = (cplib.space_cumulative5, cplib.size_cumulative5)
+SPACES["cumulative_pair"] = (cplib.space_cumulative_pair, cplib.size_cumulative_pair)
+SPACES["global_pair"] = (cplib.space_global_pair, cplib.size_global_pair)
 SPACES["cumulative4_window03"] = (lambda i: cplib.space_cumulative(i, 4, (0, 3)), lambda: cplib.size_cumulative(4, (0, 3)))
 SPACES["cumulative3_window05"] = (lambda i: cplib.space_cumulative(i, 3, (0, 5)), lambda: cplib.size_cumulative(3, (0, 5)))
 
@@ -353,6 +355,8 @@ def plan(tier, seed):
         ("alldiff_wide", 16, None),
         ("alldiff7_full_domains", 1, None),
         ("cumulative5_unit", 8, None),
+        ("cumulative_pair", 16, None),
+        ("global_pair", 2, None),
         ("cumulative2_dur013", 2, None),
         ("cumulative2_dem02", 2, None),
         ("cumulative3_dur013", 8, (seed % 4, 4) if q else None),
